@@ -3,16 +3,23 @@ package authip
 
 import "github.com/cornelk/hashmap"
 
-// VerifReset empties the live whitelist (a fresh process).
+// the watcher object of the running process: LoopIPWhiteList creates ONE AuthIp and calls parseAuthIp on it for the initial
+// load and for every change event, so whatever that object remembers between loads is part of the behaviour
+var verifWatcher *AuthIp
+
+// VerifReset empties the live whitelist and forgets the watcher object (a fresh process).
 func VerifReset() {
 	IpMap.enable = false
 	IpMap.HashMap = hashmap.HashMap{}
+	verifWatcher = nil
 }
 
-// VerifReload runs the real parseAuthIp exactly as the watcher does on a change event.
+// VerifReload runs the real parseAuthIp exactly as the watcher does on a change event (same long-lived object).
 func VerifReload(dir, file string) error {
-	a := &AuthIp{path: dir, name: dir + "/" + file}
-	return a.parseAuthIp()
+	if verifWatcher == nil || verifWatcher.path != dir || verifWatcher.name != dir+"/"+file {
+		verifWatcher = &AuthIp{path: dir, name: dir + "/" + file}
+	}
+	return verifWatcher.parseAuthIp()
 }
 
 // VerifSet sets the live whitelist directly (E1 scenarios that are not about reload).
